@@ -15,7 +15,7 @@ LEVEL_TEXT["C12"] = (
 
 PROPS["C12"] = {
     "gen": ["Cmplx"],
-    "lean_props": "DspVerif.Props.C12",
+    "lean_props": ["DspVerif.Props.C12", "DspVerif.Props.C12More"],
     "harness": [{"src": "c12.cpp", "cfg": "rel", "tol": {"lms": (1e-12, 0.0), "rls": (1e-9, 0.0)}}],
     "rule": "per type (real, complex) and filter (LMS, NLMS, RLS): boundary scenarios (zero input, locked from the start, empty calls, frames of len-1/len/len+1); "
             "random arbitrary input/desired pairs on horizons <= 3 len + 24 over lengths 2..64 (edge lengths 2,3,4,5,7,8,16,31,32,33,63,64 favoured), "
